@@ -1,8 +1,10 @@
 ------------------------------ MODULE TraceC15 ------------------------------
 (* Code -> spec for C15.  Each case is one run of pytype.io.check_or_generate_pyi on a virtual   *)
 (* file: the oracle's view of the text (compile() accepts it? which line does it blame? number    *)
-(* of lines, skip-file directive), the stage events emitted by harness-side wrappers (one per      *)
-(* stage, in `finally`), whether an exception escaped, and the reported errors (name, line).       *)
+(* of lines, skip-file directive), the stage events <<stage, status, depth>> emitted by            *)
+(* harness-side wrappers when a stage function returns or raises (sub-runs of Compile/Blocks/Run   *)
+(* for annotation evaluation included; depth is informative, the sub-machine of Outcome decides    *)
+(* what is a sub-run), whether an exception escaped, and the reported errors (name, line).         *)
 (* The run is accepted iff it is a behaviour of the Outcome machine whose report satisfies C15     *)
 (* (Outcome!Verdict).  Verdicts are total: failing clauses are printed as BAD lines.               *)
 EXTENDS Outcome, IOUtils, TLCExt
